@@ -44,8 +44,10 @@ def fault_scenarios(tie, rng, thorough):
             continue
         off, _ = data_event(r, 0)
         nbits = 514 * 8
-        if thorough:
-            bits = list(range(nbits))
+        if thorough and b.kind == "V2HC":
+            bits = list(range(nbits))                 # every single-bit flip of block + CRC
+        elif thorough:
+            bits = sorted(set(list(range(4096, 4112)) + [rng.below(nbits) for _ in range(700)]))
         else:
             bits = sorted(set([0, 1, 7, 8, 4095, 4096, 4097, 4103, 4104, 4111] + [rng.below(nbits) for _ in range(40)] + list(range(4096, 4112))))
         for bit in bits:
@@ -68,7 +70,7 @@ def fault_scenarios(tie, rng, thorough):
     for kind in S.KINDS:
         csd = S.csd_for(kind)
         for crc in (0, 1):
-            for code in ("0b", "0d", "eb", "ed", "ff", "00", "04", "e4", "07", "1f", "15", "f5", "25"):
+            for code in ("0b", "0d", "eb", "ed", "ff", "00", "04", "e4", "07", "1f", "15", "f5"):
                 for calls in (["w:2:1:7"], ["w:2:3:7", "r:1:0"]):
                     sc = S.Scn("FX%d" % n, crc, 50, calls, kind=kind, csd=csd, memseed=5, tseed=n, faults="wres:" + code, tag="wres"); n += 1
                     scns.append(sc); expect[sc.id] = ("writeerr", 0)
@@ -91,7 +93,7 @@ def fault_scenarios(tie, rng, thorough):
         total = len(S.Result([]).miso) if False else None
         r0 = tie.run_impl([base])[base.id]
         total = S.trace_bytes(r0.trace())
-        stride = 1 if thorough else max(1, total // 40)
+        stride = max(1, total // 700) if thorough else max(1, total // 40)
         for p in range(0, total + 1, stride):
             for mode in ((0, 1, 2) if (thorough or p % 3 == 0) else (p % 3,)):
                 if thorough and mode == 0 and p % 4:
@@ -181,46 +183,51 @@ def check(run, replay=None):
     faults, expect = fault_scenarios(tie, rng, thorough)
     legal_misos = [(s.crc, s.retries, s.calls, lres[s.id].miso) for s in legal if s.tag == "script" and s.id in lres]
     raws = raw_scenarios(rng, thorough, legal_misos)
-    fres = tie.run_impl(faults)
-    rres = tie.run_impl(raws)
-    ires = dict(lres); ires.update(fres); ires.update(rres)
     allscn = legal + faults + raws
-    mres = tie.run_model(allscn, ires)
-    diffs = tie.compare(allscn, ires, mres)
     byid = {s.id: s for s in allscn}
-
-    # ---- oracles on the implementation's outputs
-    bad = []
-    for s in allscn:
-        r = ires.get(s.id)
-        if r is None:
-            continue
-        costs = tie.model_costs(mres, s.id)
-        for k, res in sorted(r.results.items()):
-            call = s.calls[k]
-            if res == "panic":
-                bad.append((s, k, "panic in `%s`" % call))
-            nbytes = S.trace_bytes(r.calltrace[k])
-            if k in costs and nbytes > costs[k][1]:
-                bad.append((s, k, "call `%s` clocked %d bytes, proved bound %d" % (call, nbytes, costs[k][1])))
-            if k in costs and nbytes != costs[k][0] and not [d for d in diffs if d[0].id == s.id]:
-                bad.append((s, k, "byte count differs from the model's (%d vs %d)" % (nbytes, costs[k][0])))
-            # failed initialisation: the next call that uses the bus starts with CMD0
-            if res.startswith("err ") and res[4:] in INIT_ERRS and (k + 1) in r.calltrace and s.calls[k + 1] != "mu":
-                nxt = [l for l in r.calltrace[k + 1] if l[0] in "WTIPF"]
-                if nxt and not (nxt[0].startswith("W 400000000095") or nxt[0].startswith("F W 400000000095")):
-                    bad.append((s, k, "after failed initialisation (%s) the next call did not start with CMD0: %s" % (res, nxt[0][:60])))
-        kind, k0 = expect.get(s.id, (None, 0))
-        res0 = r.results.get(k0, "")
-        if kind == "crcerr" and not res0.startswith("err CrcError"):
-            bad.append((s, k0, "corrupted block+CRC (CRC on) was not reported as CrcError: %s" % res0))
-        if kind == "anyerr" and res0.startswith("ok"):
-            bad.append((s, k0, "corrupted block in a multi-block read returned Ok"))
-        if kind == "writeerr" and not res0.startswith("err WriteError"):
-            bad.append((s, k0, "rejected write was not reported as WriteError: %s" % res0))
+    bad, diffs = [], []
+    results_of = {}
+    # batches: traces of faulted runs can be long; nothing but counters and failures is kept
+    BATCH = 600
+    pending = [(legal, lres)] + [(allscn[i:i + BATCH], None) for i in range(len(legal), len(allscn), BATCH)]
+    for batch, ires in pending:
+        if ires is None:
+            ires = tie.run_impl(batch)
+        mres = tie.run_model(batch, ires)
+        bdiffs = tie.compare(batch, ires, mres)
+        diffs += bdiffs
+        for s in batch:
+            r = ires.get(s.id)
+            if r is None:
+                continue
+            results_of[s.id] = dict(r.results)
+            costs = tie.model_costs(mres, s.id)
+            for k, res in sorted(r.results.items()):
+                call = s.calls[k]
+                if res == "panic":
+                    bad.append((s, k, "panic in `%s`" % call))
+                nbytes = S.trace_bytes(r.calltrace[k])
+                if k in costs and nbytes > costs[k][1]:
+                    bad.append((s, k, "call `%s` clocked %d bytes, proved bound %d" % (call, nbytes, costs[k][1])))
+                if k in costs and nbytes != costs[k][0] and not [d for d in bdiffs if d[0].id == s.id]:
+                    bad.append((s, k, "byte count differs from the model's (%d vs %d)" % (nbytes, costs[k][0])))
+                # failed initialisation: the next call that uses the bus starts with CMD0
+                if res.startswith("err ") and res[4:] in INIT_ERRS and (k + 1) in r.calltrace and s.calls[k + 1] != "mu":
+                    nxt = [l for l in r.calltrace[k + 1] if l[0] in "WTIPF"]
+                    if nxt and not (nxt[0].startswith("W 400000000095") or nxt[0].startswith("F W 400000000095")):
+                        bad.append((s, k, "after failed initialisation (%s) the next call did not start with CMD0: %s" % (res, nxt[0][:60])))
+            kind, k0 = expect.get(s.id, (None, 0))
+            res0 = r.results.get(k0, "")
+            if kind == "crcerr" and not res0.startswith("err CrcError"):
+                bad.append((s, k0, "corrupted block+CRC (CRC on) was not reported as CrcError: %s" % res0))
+            if kind == "anyerr" and res0.startswith("ok"):
+                bad.append((s, k0, "corrupted block in a multi-block read returned Ok"))
+            if kind == "writeerr" and not res0.startswith("err WriteError"):
+                bad.append((s, k0, "rejected write was not reported as WriteError: %s" % res0))
+        del ires, mres
     for s, k, what in bad[:3]:
         tie.violation(what, "scenario: %s\ncall %d: %s\nresult: %s\nreplay: echo '%s' | harness/target/debug/sdrun" % (
-            s.impl_line()[:1500], k, s.calls[k], ires[s.id].results.get(k), s.impl_line()))
+            s.impl_line()[:1500], k, s.calls[k], results_of.get(s.id, {}).get(k), s.impl_line()))
     if not bad:
         tie.report_diffs(diffs, "C13_bounded C13_transport C13_crc_gate C13_detects_* C13_write_rejected C13_bad_token C13_failed_init")
     tags = {}
